@@ -546,11 +546,11 @@ def oracle_alg(c, res):
     elif law == "pow1":
         same("p1", a, "a**1 vs a")
         k = unhex(c["info"]["k"])
+        lk = unhex(base_of(desc("pk"))["log_norm"])
+        if not close(lk, k * unhex(base_of(a)["log_norm"]), 1e-9 * max(1.0, abs(lk))):
+            out.append(("pow-lognorm", "log_norm of a**k is %r, not k*log_norm = %r" % (lk, k * unhex(base_of(a)["log_norm"]))))
         if valid(desc("pk")):
             additive("pk", [[k * v for v in r] for r in nat(a)], "a**k")
-            lk = unhex(base_of(desc("pk"))["log_norm"])
-            if not close(lk, k * unhex(base_of(a)["log_norm"]), 1e-9 * max(1.0, abs(lk))):
-                out.append(("pow-lognorm", "log_norm of a**k is not k*log_norm"))
     elif law == "zeros":
         z = nat(desc("z"))
         if not all(v == 0.0 for r in z for v in r):
